@@ -4,6 +4,13 @@
 //           text "<producer>.<call>", 'a'..'e' = a line with an EMPTY text at level 0..4; "-" = no calls
 //           vals = per call the "val" argument of send(): '0' -> 0, '1' -> 1, '2' -> 4096 (default: all 0);
 //           direction flag 1: the logger has Logger::direction besides Logger::sequence (default 0)
+//           optionally three more fields "<kind> <layout flags> <locs>,<locs>,...":
+//             kind F = FileLogger (default), X = XmlFileLogger, P = PipeLogger ("|cat > file")
+//             layout flags: any of m (mstart) s (sstart) t (thread) T (timestamp) M (minitimestamp) l (level) L (location), "-" = none
+//             locs = per call '1': send() gets a file/line string "src.cpp:<call>", '0': nullptr (default)
+//           Whatever the layout, the result reports for every written line the sequence field (as 7 digits), the direction
+//           field if the flag is set, and the text, EXTRACTED from the line (text = last word of a text line / the text
+//           attribute of an XML line); a line from which they cannot be extracted is reported as "?<line>".
 //           mode a: stop() is called by the producer thread that finishes last, right after its last call;
 //           b: by the main thread <delay us> after it has joined the producers; c: by the main thread after the file has
 //           been seen to contain one line per call at an enabled level (or has not grown for a while)
@@ -75,6 +82,19 @@ static std::string run_case(const std::string& line, unsigned caseno)
 			}
 		}
 
+	std::string kind("F"), layout("-"), locstr;
+	std::vector<std::string> locs;
+	if (is >> kind >> layout >> locstr)
+		for (auto& v : split(locstr, ','))
+			locs.push_back(v == "-" ? std::string() : v);
+	locs.resize(prog.size());
+	for (size_t i(0); i < prog.size(); ++i)
+		locs[i].resize(prog[i].size(), '0');
+	if (kind != "F" && kind != "X" && kind != "P")
+		return "BAD-CASE";
+	const bool xml(kind == "X"), piped(kind == "P");
+	auto has = [&](char f) { return layout.find(f) != std::string::npos; };
+
 	std::ostringstream pn;
 	pn << g_dir << "/case" << caseno << ".log";
 	const std::string path(pn.str());
@@ -83,8 +103,32 @@ static std::string run_case(const std::string& line, unsigned caseno)
 	flags << Logger::sequence;
 	if (dirflag)
 		flags << Logger::direction;
-	FileLogger *lg(new FileLogger(path, flags, Logger::Levels(mask), " ", Logger::LogPositions(), 0));
+	if (has('m')) flags << Logger::mstart;
+	if (has('s')) flags << Logger::sstart;
+	if (has('t')) flags << Logger::thread;
+	if (has('T')) flags << Logger::timestamp;
+	if (has('M')) flags << Logger::minitimestamp;
+	if (has('l')) flags << Logger::level;
+	if (has('L')) flags << Logger::location;
+	Logger *lg(0);
+	if (xml)
+		lg = new XmlFileLogger(path, flags, Logger::Levels(mask), " ", Logger::LogPositions(), 0);
+	else if (piped)
+		lg = new PipeLogger("|cat > " + path, flags, Logger::Levels(mask), " ");
+	else
+		lg = new FileLogger(path, flags, Logger::Levels(mask), " ", Logger::LogPositions(), 0);
+	if (xml)
+		expect += 2;		// the two lines of the preamble
 
+	// the file/line strings must outlive the logger: LogElement stores the pointer only
+	std::vector<std::vector<std::string> > loc_store(np);
+	for (size_t i(0); i < np; ++i)
+		for (size_t k(0); k < prog[i].size(); ++k)
+		{
+			std::ostringstream loc;
+			loc << "src.cpp:" << k;
+			loc_store[i].push_back(loc.str());
+		}
 	std::vector<std::string> rets(np);
 	std::atomic<bool> go(false);
 	std::atomic<int> remaining(static_cast<int>(np));
@@ -105,7 +149,8 @@ static std::string run_case(const std::string& line, unsigned caseno)
 				if (!empty)
 					txt << i << '.' << k;
 				const unsigned val(vals[i][k] == '0' ? 0 : vals[i][k] == '1' ? 1 : 4096);
-				const bool r(lg->send(txt.str(), static_cast<Logger::Level>(lev), nullptr, val));
+				const char *fl(locs[i][k] == '1' ? loc_store[i][k].c_str() : nullptr);
+				const bool r(lg->send(txt.str(), static_cast<Logger::Level>(lev), fl, val));
 				rets[i].push_back(r ? '1' : '0');
 				if (np > 1 && (k + i) % 3 == 0)		// let the producers interleave
 					sched_yield();
@@ -153,18 +198,89 @@ static std::string run_case(const std::string& line, unsigned caseno)
 	for (size_t i(0); i < np; ++i)
 		out << (i ? "," : "") << (rets[i].empty() ? std::string("-") : rets[i]);
 	out << " stop=" << (stopped ? 1 : 0) << " file=";
+	if (piped)
+	{
+		delete lg;		// pclose: cat has written everything it was given
+		lg = 0;
+	}
 	{
 		std::ifstream ifs(path.c_str(), std::ios::binary);
 		std::string l;
 		bool first(true);
 		while (std::getline(ifs, l))
 		{
-			for (auto& ch : l)
+			std::string canon;
+			bool good(false);
+			if (xml)
+			{
+				if (l.compare(0, 12, "   <logline ") != 0)
+					continue;		// preamble / postamble
+				auto attr = [&](const char *name, std::string& val)
+				{
+					const std::string key(std::string(" ") + name + "=\'");
+					const size_t p(l.find(key));
+					if (p == std::string::npos)
+						return false;
+					const size_t q(l.find('\'', p + key.size()));
+					if (q == std::string::npos)
+						return false;
+					val = l.substr(p + key.size(), q - p - key.size());
+					return true;
+				};
+				std::string sq, dr, tx;
+				if (attr("sequence", sq) && attr("text", tx) && !sq.empty() && sq.size() <= 7
+					&& sq.find_first_not_of("0123456789") == std::string::npos && l.size() >= 2 && l.compare(l.size() - 2, 2, "/>") == 0
+					&& (!dirflag || attr("direction", dr)))
+				{
+					canon = std::string(7 - sq.size(), '0') + sq + ' ' + (dirflag ? dr + ' ' : std::string()) + tx;
+					good = true;
+				}
+			}
+			else if (layout == "-")
+			{
+				canon = l;		// sequence [direction] text: the whole line, as it is
+				good = true;
+			}
+			else
+			{
+				// fields in the order mstart sstart sequence thread timestamp minitimestamp direction level location, then the text
+				const size_t off((has('m') ? 12 : 0) + (has('s') ? 9 : 0));
+				const size_t sp(l.rfind(' '));
+				if (sp != std::string::npos && l.size() >= off + 8)
+				{
+					const std::string tx(l.substr(sp + 1)), sq(l.substr(off, 7));
+					std::string head(l.substr(0, sp));		// without the text and its delimiter
+					if (has('L'))
+					{
+						const size_t lp(head.rfind(' '));
+						if (lp != std::string::npos && head.compare(lp + 1, 8, "src.cpp:") == 0)
+							head.erase(lp);
+					}
+					if (has('l') && head.size() >= 6)
+						head.erase(head.size() - 6);		// "Info " and its delimiter
+					std::string dr;
+					bool okd(true);
+					if (dirflag)
+					{
+						okd = head.size() >= 3;
+						if (okd)
+							dr = head.substr(head.size() - 3);
+					}
+					if (okd && sq.find_first_not_of("0123456789") == std::string::npos)
+					{
+						canon = sq + ' ' + (dirflag ? dr + ' ' : std::string()) + tx;
+						good = true;
+					}
+				}
+			}
+			if (!good)
+				canon = "?" + l;
+			for (auto& ch : canon)
 			{
 				if (ch == ' ') ch = '/';
-				else if (!(isalnum(static_cast<unsigned char>(ch)) || ch == '.')) ch = '?';
+				else if (!(isalnum(static_cast<unsigned char>(ch)) || ch == '.' || (ch == '?' && !good))) ch = '_';
 			}
-			out << (first ? "" : ",") << (l.empty() ? std::string("?") : l);
+			out << (first ? "" : ",") << (canon.empty() ? std::string("?") : canon);
 			first = false;
 		}
 		if (first)
